@@ -335,7 +335,7 @@ pub fn run(ctx: &Ctx) -> (Stats, Spec) {
     st.merge(crate::report::merge_all(parts));
     st.exhaustive.push("aln/amn/exn: all operand lists of length 0..3 over all 16 functions of 2 variables x every bound in [-3, len+3] and 6 extreme bounds".into());
     st.exhaustive.push("count_leq/lt/geq/gt/eq: all pairs of lists of length 0..2 over all 16 functions of 2 variables".into());
-    let (iters, maxlen) = ctx.tier.pick((1_500u64, 5usize), (60_000u64, 7usize));
+    let (iters, maxlen) = ctx.tier.pick((8_000u64, 5usize), (60_000u64, 7usize));
     let parts = util::par_jobs(16, |job| {
         let mut s = random_job(ctx, job, iters, maxlen);
         s.merge(language_job(ctx, job, iters * 2));
